@@ -71,3 +71,35 @@ Print Assumptions c10_escape_conditions_needed.
 Theorem c10_merge_without_target_repaired : (exists g, analyze TotalTop.env0 false cx_L7a = Ok g) /\ escape_free cx_L7a = true.
 Proof. exact cx_L7a_repaired. Qed.
 Print Assumptions c10_merge_without_target_repaired.
+
+(** * Script level: the statement loop (session metadata, silent mode) and the assembly (DROP / RENAME handling) *)
+From SV Require Import Tree.TotalScript Tree.TotalValue.
+
+(** the assembly never raises KeyError, for any statement holders *)
+Theorem c10_build_no_key_error : forall p hs, build p hs <> ErrKey.
+Proof. exact build_no_key. Qed.
+Print Assumptions c10_build_no_key_error.
+
+(** whole scripts: every tree escape-free, and in every RENAME statement no later pair starts from or ends in the old name of an
+    earlier pair ([script_rn_ok], executable; it is trivially true of every non-RENAME statement: extract_holder_rn_ok) - then the
+    script-level result is a graph or an allowed error, in both modes, for every environment *)
+Theorem c10_script_total_partial : forall e silent base stmts,
+  Forall (fun t => escape_free t = true) stmts -> script_rn_ok e silent base stmts = true ->
+  match script_graph e silent base stmts with Ok _ => True | Err k => allowed_err k = true \/ k = EValue end.
+Proof. exact script_total. Qed.
+Print Assumptions c10_script_total_partial.
+
+(** without the RENAME guard the only additional outcome is NetworkXError (K-C10-5), and it does occur *)
+Theorem c10_script_total_unguarded : forall e silent base stmts,
+  Forall (fun t => escape_free t = true) stmts ->
+  match script_graph e silent base stmts with Ok _ => True
+  | Err k => allowed_err k = true \/ k = EValue \/ k = "NetworkXError" end.
+Proof. exact script_total_unguarded. Qed.
+Print Assumptions c10_script_total_unguarded.
+
+(** statement types outside the lineage extractors (COPY, DROP, ALTER/RENAME, no-op and unsupported types): no EValue either *)
+Theorem c10_total_strict_outside_lineage_types : forall e silent t,
+  escape_free t = true -> mem_string (ty t) LINEAGE_TYPES = false ->
+  match analyze e silent t with Ok _ => True | Err k => allowed_err k = true end.
+Proof. exact TotalValue.c10_total_strict_outside_lineage_types. Qed.
+Print Assumptions c10_total_strict_outside_lineage_types.
